@@ -261,11 +261,15 @@ class Builtins:
     def _iter_partial(self, I, x):
         return I.iterate(x)
 
+    def _set_source(self, I, x):
+        """elements of the argument of set() / frozenset(): a set argument is copied without committing to an iteration order"""
+        return list(x.items) if isinstance(x, SetV) and not x.opaque and getattr(x, "ucls", None) is None else I.iterate(x)
+
     def b_set(self, I, x=None):
-        return SetV(self._uniq(I, I.iterate(x)) if x is not None else [])
+        return SetV(self._uniq(I, self._set_source(I, x)) if x is not None else [])
 
     def b_frozenset(self, I, x=None):
-        s = SetV(self._uniq(I, I.iterate(x)) if x is not None else [])
+        s = SetV(self._uniq(I, self._set_source(I, x)) if x is not None else [])
         s.frozen = True
         return s
 
